@@ -153,7 +153,14 @@ func genVesting(r *sim.RNG, p *sim.Plan, tier string) []sim.Step {
 	if r.Intn(4) != 0 {
 		out = append(out, cfg())
 	}
-	out = append(out, add())
+	// the first pool is a plain valid one (1-3 destinations, starts now, valid duration) so that
+	// the operations that follow have a pool to work on in most runs
+	f := add()
+	f.I[0], f.I[1], f.I[2] = int64(1+r.Intn(3)), 0, int64(r.Pick([]int{2, 2, 3, 2, 0, 2}))
+	if f.I[4] == 3 {
+		f.I[4] = 0
+	}
+	out = append(out, f)
 	for i := 0; i < n; i++ {
 		switch r.Pick([]int{1, 4, 6, 5, 2, 2, 7, 2}) {
 		case 0:
@@ -199,6 +206,19 @@ func setupVesting(w *ledger.World, r *ledger.Runner) {
 	pick := func(k int64) (string, *vPool) {
 		if len(wl.pools) == 0 {
 			return vestingPoolPrefix + encryption.Hash("no-such-pool"), nil
+		}
+		// four times out of five "pool #k" counts the pools that still exist
+		if k%5 != 0 {
+			var live []string
+			for _, id := range wl.pools {
+				if readPool(r.BC, id) != nil {
+					live = append(live, id)
+				}
+			}
+			if len(live) > 0 {
+				id := live[int(k)%len(live)]
+				return id, readPool(r.BC, id)
+			}
 		}
 		id := wl.pools[int(k)%len(wl.pools)]
 		return id, readPool(r.BC, id)
@@ -365,7 +385,7 @@ func setupVesting(w *ledger.World, r *ledger.Runner) {
 		r.EnsureBlock()
 		id, vp := pick(st.Int(0, 0))
 		if vp == nil {
-			tr.Fault("op_on_missing_pool")
+			tr.Fault("op_on_deleted_or_missing_pool")
 		}
 		from := caller(vp, st.Int(1, 0), st.A)
 		o := call(r, from, ledger.AddrVesting, "trigger", map[string]any{"pool_id": id}, "", 0, 0)
@@ -378,7 +398,7 @@ func setupVesting(w *ledger.World, r *ledger.Runner) {
 		r.EnsureBlock()
 		id, vp := pick(st.Int(0, 0))
 		if vp == nil {
-			tr.Fault("op_on_missing_pool")
+			tr.Fault("op_on_deleted_or_missing_pool")
 		}
 		who := st.Int(1, 0)
 		var from string
@@ -401,7 +421,7 @@ func setupVesting(w *ledger.World, r *ledger.Runner) {
 		r.EnsureBlock()
 		id, vp := pick(st.Int(0, 0))
 		if vp == nil {
-			tr.Fault("op_on_missing_pool")
+			tr.Fault("op_on_deleted_or_missing_pool")
 		}
 		dest, _ := w.Account(int(st.Int(1, 0)))
 		if vp != nil && len(vp.Dests) > 0 {
@@ -415,7 +435,7 @@ func setupVesting(w *ledger.World, r *ledger.Runner) {
 		r.EnsureBlock()
 		id, vp := pick(st.Int(0, 0))
 		if vp == nil {
-			tr.Fault("op_on_missing_pool")
+			tr.Fault("op_on_deleted_or_missing_pool")
 		}
 		from := caller(vp, st.Int(1, 0), st.A)
 		o := call(r, from, ledger.AddrVesting, "delete", map[string]any{"pool_id": id}, "", 0, 0)
@@ -841,7 +861,7 @@ func init() {
 	sim.Register(&sim.Check{
 		ID: "C16", Title: "Vesting pays each destination at most its amount, on schedule", World: "ledger",
 		Gen: vestingScenario.Gen, Exec: vestingScenario.Exec,
-		Quick: sim.Budget{Runs: 400, WallS: 80}, Thorough: sim.Budget{Runs: 30000, WallS: 1200},
+		Quick: sim.Budget{Runs: 360, WallS: 75}, Thorough: sim.Budget{Runs: 30000, WallS: 1000},
 		LevelText: "seeded search over vesting pools (1-21 destinations after raising max_destinations through the real settings transaction, amounts from 1 to ~1e17 including values just above 2^53, repeated and owner-as-destination ids, start now/later, durations from the configured minimum to 30 years, with and without excess) " +
 			"and trigger / unlock (owner, destination, outsider) / stop / delete at clock points placed around each pool's start, middle and expiry; per destination the vested counters and balance changes found in the MPT diff are compared with the linear schedule in big-integer arithmetic",
 		LevelNote: "tolerance (DESIGN A.5): vested <= ceil(amount*elapsed/duration)+1 and <= amount; equality with amount required after a successful trigger/unlock/delete at or after expiry; a refused delete / excess unlock by the owner or a refused trigger / destination unlock at or after expiry with tokens still due is a violation; transaction time only moves forward",
